@@ -5,7 +5,7 @@
 # against the scratch copy. Evidence and replays go to a scratch directory.
 # Prints one line per check: "<ID> exit=<code>". Removes everything afterwards.
 set -u
-PATCH="$1"; shift
+PATCH="$1"; shift; case "$PATCH" in -R:*) ;; *) PATCH="$(realpath "$PATCH")";; esac
 S=$(mktemp -d /tmp/vmut.XXXXXX)
 trap 'rm -rf "$S"' EXIT
 mkdir -p "$S/repo" "$S/out"
@@ -14,7 +14,7 @@ cp /verif/known_findings.json "$S/out/" 2>/dev/null
 export GOFLAGS=-mod=mod GOPROXY=off GOSUMDB=off GOTOOLCHAIN=local
 case "$PATCH" in
   -R:*) (cd /repo && git show "${PATCH#-R:}" -- . ':!verif_hooks.go') | (cd "$S/repo" && patch -R -p1 -s) || { echo "revert failed"; exit 3; } ;;
-  *) (cd "$S/repo" && patch -p1 -s < "$PATCH") || { echo "patch failed"; exit 3; } ;;
+  *) (cd "$S/repo" && patch -p1 -s < "$(realpath "$PATCH")") || { echo "patch failed"; exit 3; } ;;
 esac
 if ! (cd "$S/repo" && go build ./... && go test -vet=off -count=1 ./... > "$S/test.log" 2>&1); then
   echo "MUTANT-INVALID: does not build or fails the repository tests"; tail -5 "$S/test.log"; exit 4
